@@ -639,7 +639,7 @@ theorem C02_shell_refines_event (s : Sys.Sys F) (e : Sys.Ev) (hinv : ShellInv s)
 * periodic flush: only sends;
 * housekeeping: only a reset (reconnect, with `reset_for_reconnect` or — failed socket re-creation —
   `mark_for_recovery`);
-* `setCfg` / `crit` / `failNext` / `failBind`: nothing;
+* `setCfg` / `crit` / `failNext` / `failBind` / `stamp` (verdict stamps): nothing;
 * uplink datagram, by type code: SRT ACK 0x8002 — only cumulative ACKs; SRT NAK 0x8003 and SRTLA ACK 0x9100 —
   only single retirements; REG3 0x9202 and REG_ERR 0x9210 — only a reset, and only on the ARRIVAL link;
   any other type (keepalive, REG_NGP, REG2, data, unknown) and datagrams too short for a type code — nothing. -/
@@ -652,6 +652,7 @@ theorem C02_shell_event_kinds (s : Sys.Sys F) (e : Sys.Ev) (j : Nat) (k : KOp) (
     | .crit _ => False
     | .failNext _ => False
     | .failBind _ => False
+    | .stamp _ _ _ _ _ => False
     | .uplink _ cid data =>
         ∃ pt, Codec.getPacketTypeS data = some pt ∧
           ((pt = 0x8002 ∧ ∃ a, k = .cumAck a) ∨ ((pt = 0x8003 ∨ pt = 0x9100) ∧ ∃ q, k = .retire q) ∨
@@ -706,6 +707,17 @@ theorem C02_shell_event_kinds (s : Sys.Sys F) (e : Sys.Ev) (j : Nat) (k : KOp) (
   | crit d => cases k <;> first | exact hk | (rcases hk with h | h | h <;> exact h) | (rcases hk with h | h <;> exact h)
   | failNext c => cases k <;> first | exact hk | (rcases hk with h | h | h <;> exact h) | (rcases hk with h | h <;> exact h)
   | failBind c => cases k <;> first | exact hk | (rcases hk with h | h | h <;> exact h) | (rcases hk with h | h <;> exact h)
+  | stamp idx weak ld ccb cct =>
+    -- the only operation a verdict stamp applies is the neutral `stamp`: no set operation
+    cases k with
+    | send q => exact absurd (hk : evOps s (.stamp idx weak ld ccb cct) j .take).1 (by decide)
+    | reset =>
+      rcases (hk : evOps s (.stamp idx weak ld ccb cct) j .mark ∨ evOps s (.stamp idx weak ld ccb cct) j .reconnect ∨
+        evOps s (.stamp idx weak ld ccb cct) j .reg3) with h | h | h <;> exact absurd h.1 (by decide)
+    | cumAck a => exact absurd (hk : evOps s (.stamp idx weak ld ccb cct) j .srtAck).1 (by decide)
+    | retire q =>
+      rcases (hk : evOps s (.stamp idx weak ld ccb cct) j .sack ∨ evOps s (.stamp idx weak ld ccb cct) j .nak)
+        with h | h <;> exact absurd h.1 (by decide)
   | uplink now cid data =>
     have arr : ∀ {p : Prop}, ((s.links.findIdx? (·.core.connId == cid) == some j) = true ∧ p) →
         s.links.findIdx? (·.core.connId == cid) = some j := fun h => by simpa using h.1
